@@ -523,8 +523,9 @@ JUDGES["xz_write"] = lambda j, s, r, source="replay": judge_xz_write(j, s, r, No
 
 # --------------------------------------------------------------------------- LZIP writer family (C02 C03 C12 C18)
 EXPORT_LZ = r'''
-ScnL(t) == [tag |-> t, dict |-> cfg.dict, limit |-> cfg.limit, far |-> cfg.far, calls |-> calls, members |-> MembersOf(file, 1),
-            dictbyte |-> EncodeByte(cfg.dict), st |-> rd.st, out |-> rd.out, total |-> ws.total, phase |-> phase]
+ScnL(t) == [tag |-> t, dict |-> cfg.dict, limit |-> cfg.limit, far |-> cfg.far, calls |-> calls, members |-> MembersOf(Mine, 1),
+            dictbyte |-> EncodeByte(cfg.dict), st |-> rd.st, out |-> rd.out, total |-> ws.total, phase |-> phase,
+            hist |-> prev.hist, allmembers |-> MembersOf(file, 1)]
 ExportL == (phase = "done") => PrintT(ToJson(ScnL("scn")))
 CexL(P) == P \/ (PrintT(ToJson(ScnL("cex"))) /\ FALSE)
 XWellFormed == CexL(WellFormed)
@@ -538,7 +539,7 @@ LZ_INV = ["TypeOK", "XWellFormed", "XContent", "XSizeLimit", "XMembersFull", "XS
 
 
 def lz_consts(variant=None, **kw):
-    c = dict(Dicts="{4096,5000,65536,70000}", LimitOpts="{0,3000,6000,80000}", WriteSizes="{2500,6000,90000}", MaxBytes="180000", MaxCalls="3",
+    c = dict(Dicts="{4096,5000,65536,70000}", LimitOpts="{0,3000,6000,80000}", WriteSizes="{2500,6000,90000}", MaxBytes="180000", MaxCalls="3", MaxFiles="1",
              MaxMembers="6", CSizes="{7}", Fars="{FALSE,TRUE}", DictByteRoundsUp=ASBUILT["DictByteRoundsUp"])
     if variant:
         c.update(variant)
@@ -749,7 +750,7 @@ LZ_TRACE_INV = {"C02": ["TWellFormed", "TRoundTrip", "TContent"], "C03": ["TWell
                 "C18": ["TSizeLimit", "TMtCount"]}
 LZ_INV_PROP = {"WellFormed": ("C02", "C03"), "RoundTrip": ("C02",), "Content": ("C02",), "Ref": ("C03",), "MtOrder": ("C12",),
                "SizeLimit": ("C18",), "MtCount": ("C18",)}
-TRACE_CONSTS_LZ = dict(Dicts="{4096}", LimitOpts="{0}", WriteSizes="{1}", MaxBytes="2000000000", MaxCalls="1000000", MaxMembers="1000000", CSizes="{7}",
+TRACE_CONSTS_LZ = dict(Dicts="{4096}", LimitOpts="{0}", WriteSizes="{1}", MaxBytes="2000000000", MaxCalls="1000000", MaxFiles="1", MaxMembers="1000000", CSizes="{7}",
                        Fars="{FALSE}")
 
 
